@@ -90,11 +90,11 @@ bool Hist::opLookups() {
             static const char* nm[] = {"dupA", "dupB", "dupA", "other", "dupB", "dupA"};
             Points P; SubFrame S; std::vector<std::string> names; size_t cnt = (size_t)rng.range(3, 6);
             for (size_t k = 0; k < cnt; ++k) { Point p; p.name(nm[k]); p.x((float)k); P.point(p); Channel c; c.name(nm[k]); c.data((float)k); S.channel(c); names.push_back(nm[k]); }
-            std::string q = nameVariant(rng, nm[rng.below(cnt)], &vk);
-            size_t got = 0; C11_NAME("caller_points.pointIdx", names, q, got = P.pointIdx(q), (long)got == want);
-            C11_NAME("caller_points.point(name)", names, q, const Point& p = P.point(q), fbits(p.x()) == fbits((float)want));
-            C11_NAME("caller_subframe.channelIdx", names, q, got = S.channelIdx(q), (long)got == want);
-            C11_NAME("caller_subframe.channel(name)", names, q, const Channel& c2 = S.channel(q), fbits(c2.data()) == fbits((float)want)); break; }
+            std::string q = nameVariant(rng, nm[rng.below(cnt)], &vk); const Points& CP = P; const SubFrame& CS = S;   // const views: the look-up overloads, not the setters
+            size_t got = 0; C11_NAME("caller_points.pointIdx", names, q, got = CP.pointIdx(q), (long)got == want);
+            C11_NAME("caller_points.point(name)", names, q, const Point& p = CP.point(q), fbits(p.x()) == fbits((float)want));
+            C11_NAME("caller_subframe.channelIdx", names, q, got = CS.channelIdx(q), (long)got == want);
+            C11_NAME("caller_subframe.channel(name)", names, q, const Channel& c2 = CS.channel(q), fbits(c2.data()) == fbits((float)want)); break; }
         default: { // typed getters
             if (s.groups.empty()) break; size_t g = rng.below(s.groups.size()); const SGroup& G = s.groups[g]; if (G.params.empty()) break; size_t p = rng.below(G.params.size()); const SParam& Q = G.params[p];
             static const int types[4] = {ezc3d::BYTE, ezc3d::INT, ezc3d::FLOAT, ezc3d::CHAR}; static const char* tn[4] = {"valuesAsByte", "valuesAsInt", "valuesAsFloat", "valuesAsString"};
@@ -181,6 +181,18 @@ bool Hist::opPrint() {
 bool Hist::opCopyOut() {
     if (prev.frames.empty()) return false;
     size_t f = rng.below(prev.frames.size());
+    if (rng.chance(50)) {
+        // a COPY-CONSTRUCTED frame shares its payload with the stored one until add() replaces it: giving the copy new points/analogs of the
+        // same size must not reach the stored frame
+        try { Frame copy(obj->data().frame(f)); const SFrame& old = prev.frames[f];
+            if (!old.pts.empty() && rng.chance(60)) { Points p; for (size_t k = 0; k < old.pts.size(); ++k) { Point q; q.name(old.pts[k].name); q.x(-555.f); q.y((float)k); p.point(q); } copy.add(p); }
+            else if (!old.subs.empty()) { Analogs a; for (size_t s = 0; s < old.subs.size(); ++s) { SubFrame sf; for (size_t k = 0; k < old.subs[s].size(); ++k) { Channel c; c.name(old.subs[s][k].name); c.data(-777.f); sf.channel(c); } a.subframe(sf); } copy.add(a); }
+            else return false; } catch (std::exception&) { return false; }
+        Outcome none; log.ev("copy_construct_and_refill", "frame=" + std::to_string((unsigned long long)f), none); bump("op:copy_construct_and_refill");
+        Snap cur = take(*obj);
+        if (cur != prev) { log.viol("C08", "refilled_copy_of_stored_frame_changes_object", "Frame copy(stored); copy.add(same-size points/analogs) changed the stored frame"); prev = cur; }
+        return true;
+    }
     try { Frame copy; copy.add(obj->data().frame(f)); if (copy.points().nbPoints() > 0) copy.points_nonConst().point_nonConst(0).x(123456.f); if (copy.analogs().nbSubframes() > 0 && copy.analogs().subframe(0).nbChannels() > 0) copy.analogs_nonConst().subframe_nonConst(0).channel_nonConst(0).data(-1.f); } catch (std::exception&) { return false; }
     Outcome none; log.ev("copy_out_and_edit", "frame=" + std::to_string((unsigned long long)f), none); bump("op:copy_out_and_edit");
     Snap cur = take(*obj);
@@ -205,6 +217,54 @@ bool Hist::opWildEdit() {
     return true;
 }
 
+// Loads that must be refused: missing file, directory, empty file, garbage.  (C13: the failing constructor must release what it allocated
+// with the right deallocator; C16's business otherwise.)  The object under test is not involved.
+bool Hist::opFailedLoad() {
+    static const char* kinds[] = {"missing", "directory", "empty", "garbage", "zeros"};
+    int k = rng.range(0, 4); std::string p = tmp + "/bad_" + std::to_string(nSaves++) + ".c3d";
+    if (k == 0) p = tmp + "/does_not_exist.c3d"; else if (k == 1) p = tmp; else if (k == 2) writeFileBytes(p, ""); else if (k == 3) writeFileBytes(p, std::string((size_t)rng.range(1, 3000), 'g')); else writeFileBytes(p, std::string((size_t)rng.range(1, 3000), '\0'));
+    Outcome oc; std::unique_ptr<ezc3d::c3d> l; log.pre("load", kinds[k]); VF_TRY(oc, l.reset(new ezc3d::c3d(p)));
+    log.ev("failed_load", kinds[k], oc); bump("op:failed_load");
+    if (!oc.threw) log.viol("C16", std::string("not_a_c3d_loaded/") + kinds[k], "a file that is not a C3D file was loaded without an exception");
+    l.reset();
+    return true;
+}
+
+// A second, unrelated object in the same process with the same number of declared points but other names: its README frame must be accepted.
+bool Hist::opSecondObject() {
+    std::vector<std::string> labels; { const SParam* q = prev.param("POINT", "LABELS"); if (q && q->type == ezc3d::CHAR) labels = q->sv; }
+    size_t np = labels.empty() ? (size_t)rng.range(1, 4) : labels.size(); if (np > 12) np = 12;
+    Outcome oc; bool valid = true;
+    try {
+        ezc3d::c3d other; { Param r("RATE"); r.set(std::vector<float>(1, 50.f)); other.parameter("POINT", r); }
+        std::vector<std::string> names; for (size_t i = 0; i < np; ++i) { names.push_back("second_" + std::to_string((unsigned long long)i) + "_" + std::to_string((long long)rng.below(100000))); other.point(names.back()); }
+        Frame f; Points pts; for (size_t i = 0; i < np; ++i) { Point p; p.name(names[i]); p.x((float)i); pts.point(p); } f.add(pts);
+        log.pre("frame", "second_object"); other.frame(f); other.frame(f, 0);
+        if (other.data().nbFrames() != 1 || other.data().frame(0).points().nbPoints() != np) valid = false;
+    } catch (const std::exception& e) { oc = classify(e); }
+    log.ev("second_object", "points=" + std::to_string((unsigned long long)np), oc); bump("op:second_object");
+    if (!wild && oc.threw) log.viol("C07", "frame/valid_refused_on_second_object/" + oc.cls, "an unrelated object with " + std::to_string((unsigned long long)np) + " declared points refused its own matching frame: " + oc.what);
+    if (!wild && !valid) log.viol("C06", "frame/second_object_content", "second object does not hold the frame it was given");
+    Snap cur = take(*obj); if (cur != prev) { log.viol("C08", "second_object_changes_first", "working on an unrelated object changed this one"); prev = cur; }
+    return true;
+}
+
+// Many declared points on a data set without frames (up to 300): every call is watched by C10 (a throw must leave the object unchanged).
+bool Hist::opManyPoints() {
+    if (!prev.frames.empty()) return false;
+    std::vector<std::string> labels; { const SParam* q = prev.param("POINT", "LABELS"); if (q && q->type == ezc3d::CHAR) labels = q->sv; }
+    if (labels.size() >= 300) return false;
+    size_t target = std::min<size_t>(300, labels.size() + (size_t)rng.range(200, 290));
+    for (size_t i = labels.size(); i < target; ++i) {
+        std::string nm = "M" + std::to_string((unsigned long long)i);
+        log.pre("point", "many"); Outcome oc; VF_TRY(oc, obj->point(nm));
+        if (oc.threw || i + 1 == target || i == 254 || i == 255 || i == 256) { log.ev("declare_point_many", "name=" + nm + " count=" + std::to_string((unsigned long long)(i + 1)), oc); afterMutator("declare_point_many", oc); if (oc.threw) break; }
+        else prev = take(*obj);
+    }
+    bump("op:many_points"); offSpec = true;     // more than 255 points is beyond the format (C17): shape agreement with the saved file is not judged
+    return true;
+}
+
 struct OpW { const char* name; int w; };
 
 void Hist::run() {
@@ -214,15 +274,15 @@ void Hist::run() {
     namedChannels = rng.chance(50);
     std::map<std::string, int> W;
     W["rate_p"] = 6; W["rate_a"] = 6; W["decl_p"] = 10; W["decl_c"] = 8; W["param"] = 8; W["pset"] = 3; W["lock"] = 3; W["append"] = 22; W["replace"] = 7; W["extend"] = 4;
-    W["resubmit"] = 4; W["mutate"] = 4; W["pcol"] = 4; W["ccol"] = 4; W["lookups"] = 5; W["rt"] = 2; W["rtc"] = 2; W["save2"] = 1; W["print"] = 0; W["wildedit"] = wild ? 5 : 0; W["copyout"] = 1; W["rmw"] = 3; W["self"] = 3; W["selfp"] = 2;
+    W["resubmit"] = 4; W["mutate"] = 4; W["pcol"] = 4; W["ccol"] = 4; W["lookups"] = 5; W["rt"] = 2; W["rtc"] = 2; W["save2"] = 1; W["print"] = 0; W["wildedit"] = wild ? 5 : 0; W["copyout"] = 1; W["rmw"] = 3; W["self"] = 3; W["selfp"] = 2; W["badload"] = 1; W["second"] = 1; W["manypts"] = 0;
     if (pf == "c06") { W["self"] = 8; W["rmw"] = 10; W["append"] = 25; W["replace"] = 18; W["extend"] = 12; W["pcol"] = 8; W["ccol"] = 8; W["param"] = 2; W["lookups"] = 1; }
-    else if (pf == "c07") { W["append"] = 25; W["replace"] = 10; W["extend"] = 6; W["pcol"] = 12; W["ccol"] = 12; W["decl_p"] = 12; W["decl_c"] = 10; W["param"] = 1; W["lookups"] = 0; W["rate_p"] = 8; W["rate_a"] = 8; }
+    else if (pf == "c07") { W["second"] = 6; W["append"] = 25; W["replace"] = 10; W["extend"] = 6; W["pcol"] = 12; W["ccol"] = 12; W["decl_p"] = 12; W["decl_c"] = 10; W["param"] = 1; W["lookups"] = 0; W["rate_p"] = 8; W["rate_a"] = 8; }
     else if (pf == "c08") { W["self"] = 8; W["rmw"] = 10; W["resubmit"] = 16; W["mutate"] = 18; W["pcol"] = 8; W["ccol"] = 8; W["copyout"] = 5; W["param"] = 1; W["lookups"] = 0; }
     else if (pf == "c09") { W["selfp"] = 8; W["param"] = 40; W["pset"] = 25; W["lock"] = 15; W["append"] = 6; W["lookups"] = 2; W["rtc"] = 3; }
-    else if (pf == "c10") { W["param"] = 14; W["pset"] = 6; W["lock"] = 6; W["pcol"] = 10; W["ccol"] = 10; }
+    else if (pf == "c10") { W["manypts"] = 2; W["param"] = 14; W["pset"] = 6; W["lock"] = 6; W["pcol"] = 10; W["ccol"] = 10; }
     else if (pf == "c11") { W["lookups"] = 45; W["decl_p"] = 14; W["decl_c"] = 10; W["param"] = 10; }
     else if (pf == "c01") { W["rt"] = 3; W["rtc"] = 3; W["param"] = 14; W["lookups"] = 1; }
-    else if (pf == "c13") { W["selfp"] = 8; W["self"] = 8; W["print"] = 3; W["rt"] = 3; W["rtc"] = 3; W["save2"] = 2; }
+    else if (pf == "c13") { W["badload"] = 8; W["selfp"] = 8; W["self"] = 8; W["print"] = 3; W["rt"] = 3; W["rtc"] = 3; W["save2"] = 2; }
     std::vector<std::pair<std::string, int> > ops(W.begin(), W.end());
     int total = 0; for (size_t i = 0; i < ops.size(); ++i) total += ops[i].second;
 
@@ -257,7 +317,7 @@ void Hist::run() {
         else if (n == "resubmit") ran = opResubmit(); else if (n == "mutate") ran = opMutateCaller();
         else if (n == "pcol") ran = opPointColumn(); else if (n == "ccol") ran = opChannelColumn();
         else if (n == "lookups") ran = opLookups(); else if (n == "rt") ran = opRoundTrip(false); else if (n == "rtc") ran = opRoundTrip(true);
-        else if (n == "save2") ran = opSaveTwice(); else if (n == "print") ran = opPrint(); else if (n == "wildedit") ran = opWildEdit(); else if (n == "copyout") ran = opCopyOut(); else if (n == "rmw") ran = opReadModifyWrite(); else if (n == "self") ran = opSelfFrame(); else if (n == "selfp") ran = opSelfParam();
+        else if (n == "save2") ran = opSaveTwice(); else if (n == "print") ran = opPrint(); else if (n == "wildedit") ran = opWildEdit(); else if (n == "copyout") ran = opCopyOut(); else if (n == "rmw") ran = opReadModifyWrite(); else if (n == "self") ran = opSelfFrame(); else if (n == "selfp") ran = opSelfParam(); else if (n == "badload") ran = opFailedLoad(); else if (n == "second") ran = opSecondObject(); else if (n == "manypts") ran = opManyPoints();
         else ran = false;
         if (ran) ++done;
     }
